@@ -999,6 +999,7 @@ func genC12c(g *G, sc *Scenario, tier string) {
 }
 
 var c13Namespaces = []string{
+	"http://Data.Example.ORG/People/", "http://data.example.org/People/",
 	"http://data.example.org/things/", "http://a.example.com/x#", "https://b.example.com/p/q/", "http://c.example.com/v1/t#frag/",
 	"http://d.example.com/", "https://e.example.com/a#", "http://f.example.com/deep/er/path/", "http://g.example.com/base#",
 }
@@ -2091,6 +2092,7 @@ func genC15(g *G, sc *Scenario, tier string) {
 	c.Pool = append(c.Pool, MkS+"K0", MkE+"t1carl", MkE+"t", MkE+"httpStatus", MkE+"https-only")
 	// local names that contain colons themselves (composite keys): the prefix ends at the first colon
 	c.Pool = append(c.Pool, MkS+"ord:1", MkS+"ord:2", MkS+"line:1:a")
+	c.PEmptyRef = 0.06
 	c.PropKeys = append(c.PropKeys, MkS+"k:1")
 	if g.P(0.5) {
 		// the two hubs have met different namespaces before, so the same prefix number means different things to them
